@@ -748,8 +748,16 @@ func init() {
 		call(fr.i, fr, 0, args[1], nil)
 		return nil
 	}
+	// sync.Pool with maximal reuse: Get returns the most recently Put object when there is one
+	// (the behaviour that exposes stale state), else New().
 	natives["(*sync.Pool).Get"] = func(fr *frame, args []value) value {
 		p := args[0].(*value)
+		if l := poolItems[p]; len(l) > 0 {
+			v := l[len(l)-1]
+			poolItems[p] = l[:len(l)-1]
+			journalFn(func() { poolItems[p] = l })
+			return v
+		}
 		st := (*p).(structure)
 		newf := st[len(st)-1] // New func() any is the last field
 		switch f := newf.(type) {
@@ -760,7 +768,13 @@ func init() {
 		}
 		return call(fr.i, fr, 0, newf, nil)
 	}
-	natives["(*sync.Pool).Put"] = nop
+	natives["(*sync.Pool).Put"] = func(fr *frame, args []value) value {
+		p := args[0].(*value)
+		old := poolItems[p]
+		journalFn(func() { poolItems[p] = old })
+		poolItems[p] = append(old[:len(old):len(old)], args[1])
+		return nil
+	}
 	natives["(*sync.Map).Load"] = func(fr *frame, args []value) value { return tuple{iface{}, false} }
 
 	// ---- sync/atomic on cells
@@ -909,6 +923,7 @@ func init() {
 }
 
 var onceDone = map[*value]bool{}
+var poolItems = map[*value][]value{}
 var ctxTimeouts = map[*value]value{}
 
 func emptyIface() types.Type { return types.NewInterfaceType(nil, nil) }
